@@ -105,6 +105,8 @@ use syn::{parse_macro_input, DeriveInput};
 mod feature;
 mod generator;
 mod parser;
+#[cfg(enum_tools_verif)]
+mod verif_seam;
 
 /// Derive Macro for enums
 ///
